@@ -494,8 +494,11 @@ class Frame:
         if name in ("np", "ops", "string", "copy"):
             return ("module", name)
         if name in ("range", "len", "list", "tuple", "sum", "isinstance", "sorted", "zip", "enumerate", "dict", "set",
-                    "bool", "max", "min", "int", "product", "reversed", "slice", "all", "any", "str", "abs"):
+                    "bool", "max", "min", "int", "product", "reversed", "slice", "all", "any", "str", "abs", "chain"):
             return ("builtin", name)
+        r = self.m.tree.resolve_dotted(m, name)
+        if r and r[0] == "class":
+            return ("class", r[1])
         if name in m.globals and len(m.globals[name]) == 1:
             try:
                 return ast.literal_eval(m.globals[name][0])
@@ -513,6 +516,8 @@ class Frame:
                 return "dtype"
             return ("modattr", n.value.id, n.attr)
         o = self.ev(n.value)
+        if o == ("builtin", "chain") and n.attr == "from_iterable":
+            return ("builtin", "chain.from_iterable")
         if isinstance(o, Obj):
             if n.attr in o.attrs:
                 return o.attrs[n.attr]
@@ -521,6 +526,8 @@ class Frame:
             if cls is not None:
                 f = cls.lookup(n.attr)
                 if f is not None:
+                    if "property" in f.decorators:
+                        return self.m.call(f, [], {}, o)
                     return ("method", f, o)
             raise NotModelled(f"attribute {n.attr}")
         if isinstance(o, (Tensor, Zeros)):
@@ -676,7 +683,10 @@ class Frame:
             if n.func.attr == "join":
                 return s.join(self._flatten_str(args[0]))
             if n.func.attr == "format":
-                return "<msg>"
+                try:
+                    return s.format(*[a if isinstance(a, (int, str)) else "<v>" for a in args])
+                except (IndexError, KeyError):
+                    return "<msg>"
             raise NotModelled("string method")
         if isinstance(fn, tuple):
             kind = fn[0]
@@ -690,6 +700,9 @@ class Frame:
                 return self.modcall(fn[1], fn[2], args, kwargs)
             if kind == "bound":
                 return self.bound(fn[1], fn[2], args, kwargs)
+            if kind == "class":
+                # instantiation of a package class: record the constructor arguments, do not run __init__
+                return Obj(__class__=fn[1], __args__=list(args), __kwargs__=dict(kwargs))
         raise NotModelled(f"call of {ast.unparse(n.func)[:40]}")
 
     def _flatten_str(self, x):
@@ -769,6 +782,16 @@ class Frame:
             return all(vals) if name == "all" else any(vals)
         if name == "str":
             return str(args[0])
+        if name == "chain.from_iterable":
+            out = []
+            for x in self.iterate(args[0]):
+                out.extend(self.iterate(x))
+            return out
+        if name == "chain":
+            out = []
+            for x in args:
+                out.extend(self.iterate(x))
+            return out
         raise NotModelled(f"builtin {name}")
 
     def bound(self, o, attr, args, kwargs):
